@@ -197,6 +197,15 @@ class PollHandler(Handler):
                 return
             self.report(it, "K1", "slot-overwrite:%s" % name,
                         "`%s` is overwritten while it still holds a value: the buffered %s is lost" % (name, "message" if "err" not in name else "rejected peer (dropped un-notified / un-closed)"), span)
+        if name == self.cfg.rebind_slot and isinstance(old, tuple) and old[:3] == ("var", OPT, "Some") and isinstance(new, tuple) and new[:3] == ("var", OPT, "None"):
+            # K14: the bound peer is unbound although neither its sink has failed nor its stream has ended (e.g. because *another*
+            # peer's sink failed): it silently stops being served and the next registrant takes its place
+            sinks = [v for _, v in walk_peers(old) if v[0] == "sink1"]
+            broken = any(v[5] for v in sinks)
+            ended = st.get(("g", "ended")) == name
+            if sinks and not broken and not ended:
+                self.report(it, "K14", "healthy-peer-unbound:%s" % name,
+                            "the peer bound in `%s` is unbound although its own sink has not failed and its stream has not ended" % name, span)
         self.routing.add(("store", name, self.token_of(new)))
 
     def token_of(self, v):
@@ -283,6 +292,16 @@ class PollHandler(Handler):
                     return [(inner, st, None)]
             return [(a0, st, None)]
 
+        # Pin::set(pin, value): an assignment through the pinned reference ------------------------
+        if n == "core::pin::Pin::set" and len(args) == 2:
+            loc = self.ref_loc(it, st, a0)
+            if loc is not None:
+                inner = it.read_loc(st, loc)
+                if isinstance(inner, tuple) and inner and inner[0] in ("lref", "oref"):
+                    loc = self.ref_loc(it, st, inner) or loc
+                st = it.write_loc(st, loc, args[1], call.bb, call.span)
+                return [(TOP, st, None)]
+
         # Option / Result -----------------------------------------------------------
         if n.startswith("core::option::Option::") or n.startswith("core::result::Result::"):
             return self.option_result(it, st, call, n, name, args)
@@ -315,6 +334,9 @@ class PollHandler(Handler):
                 return [(TOP, st, "C:adopt-sink")]
         if name in ("iter_mut", "iter", "for_each", "len", "is_empty", "shutdown_stream", "shutdown_sink", "values_mut"):
             return [(TOP, st, None)]
+        if n in ("core::iter::traits::iterator::Iterator::next", "core::iter::traits::double_ended::DoubleEndedIterator::next_back"):
+            # a `for` loop over a collection's iterator: each step consumes an element of a finite iterator (progress, not a spin)
+            return [(TOP, st, "C:iterator-step")]
 
         # anything else: must not touch a tracked object mutably --------------------------------
         for i, v in enumerate(args):
